@@ -369,6 +369,38 @@ fn c16_prefix() {
 }
 
 
+/// C16: with a custom decorator a quote / list item is its content rendered at width - display width of the prefix, prefix in front
+fn c16_compose() {
+    let decs = [
+        Dec { quote: "\u{2502} ", bullet: "\u{2022} ", header: "\u{a7}", ol_suffix: "\u{ff09}" },
+        Dec { quote: "\u{3016}", bullet: "\u{ff0a}", header: "\u{3016}", ol_suffix: "\u{3001} " },
+        Dec { quote: ">>> ", bullet: "- ", header: "=", ol_suffix: ") " },
+    ];
+    let ndoc = if bounded::thorough() { 200 } else { 50 };
+    let mut r = bounded::Lcg(0xa54ff53a5f1d36f1 ^ bounded::seed());
+    let mut cases = 0u64;
+    for _ in 0..ndoc {
+        let mut tok = 0;
+        let x = bounded::gen_block(&mut r, &mut tok, 1);
+        for d in &decs { for (open, close, is_quote) in [("<blockquote>", "</blockquote>", true), ("<ul><li>", "</li></ul>", false)] {
+            let first = if is_quote { d.quote.to_string() } else { d.bullet.to_string() };
+            let pw = UnicodeWidthStr::width(first.as_str());
+            let cont = if is_quote { first.clone() } else { " ".repeat(pw) };
+            let html = format!("{}{}{}", open, x, close);
+            for w in (10..=40usize).step_by(3) {
+                cases += 1;
+                let (d1, d2, h1, h2) = (d.clone(), d.clone(), html.clone(), x.clone());
+                let outer = match panic::catch_unwind(move || config::with_decorator(d1).string_from_read(h1.as_bytes(), w)) { Ok(Ok(s)) => s, Ok(Err(_)) => continue, Err(_) => { found("c16_compose", &format!("width={} quote={:?} bullet={:?} html={}", w, d.quote, d.bullet, html), "panic"); continue; } };
+                let inner = match panic::catch_unwind(move || config::with_decorator(d2).string_from_read(h2.as_bytes(), w - pw)) { Ok(Ok(s)) => s, _ => continue };
+                let want: Vec<String> = inner.lines().enumerate().map(|(i, l)| format!("{}{}", if i == 0 { &first } else { &cont }, l)).collect();
+                let got: Vec<String> = outer.lines().map(|l| l.to_string()).collect();
+                if got != want { found("c16_compose", &format!("width={} quote={:?} bullet={:?} html={}", w, d.quote, d.bullet, html), &format!("lines {:?}, but the content at width {} with the prefix in front is {:?}", got, w - pw, want)); }
+            }
+        }}
+    }
+    println!("NONE {}", cases);
+}
+
 /// C16: affixes of a custom decorator surround the element text verbatim (also inside nested inline elements)
 #[derive(Clone)]
 struct AffixDec;
@@ -523,6 +555,7 @@ fn main() {
         "bnd_c20" => bounded::bnd_c20(),
         "bnd_doc" => bounded::bnd_doc(),
         "c03_elements" => bounded::c03_elements(),
+        "bnd_mut" => bounded::bnd_mut(),
         "c06_positions" => bounded::c06_positions(),
         "c07_compose" => bounded::c07_compose(),
         "c14_elements" => bounded::c14_elements(),
@@ -546,6 +579,7 @@ fn main() {
         "c07_ol" => c07_ol(),
         "c16_prefix" => c16_prefix(),
         "c16_affix" => c16_affix(),
+        "c16_compose" => c16_compose(),
         "c20_nth" => c20_nth(),
         "c01_engine" => c01_engine(),
         "c02_tables" => c02_tables(),
